@@ -412,6 +412,54 @@ def r7_feasibility_shape(repo):
     return obs
 
 
+def r8_expected_type_context(repo):
+    """TypeDependencyAnalysis._exp_type: save / set / restore discipline around sub-expression visits."""
+    obs = []
+    cls = repo.cls(TDA + ".TypeDependencyAnalysis")
+    n_pairs = 0
+    for name, m in sorted(cls.methods.items()):
+        fn = m.node
+        saves = [n for n in iter_own_nodes(fn) if isinstance(n, ast.Assign) and src(n.value) == "self._exp_type" and
+                 isinstance(n.targets[0], ast.Name)]
+        stores = [n for n in iter_own_nodes(fn) if isinstance(n, ast.Assign) and src(n.targets[0]) == "self._exp_type"]
+        if name == "__init__" or (not saves and not stores):
+            continue
+        g = cfg_of(fn)
+        for sv in saves:
+            nm = sv.targets[0].id
+            restores = [s_ for s_ in stores if src(s_.value) == nm]
+            sets = [s_ for s_ in stores if s_ not in restores and not any(src(s_.value) == x.targets[0].id for x in saves)]
+            n_pairs += 1
+            problems = []
+            if not restores:
+                problems.append("saved into `%s` but never restored" % nm)
+            for r in restores:
+                # a visit between the save and the restore must see an explicitly chosen expected type
+                between_sets = [s_ for s_ in sets if g.dominates(g.node(sv), g.node(s_)) and
+                                g.path_exists_avoiding(g.node(s_), g.node(r), [])]
+                visits = [c for c in calls_in(fn) if call_name(c) in ("accept", "visit", "_visit_node") or
+                          (call_name(c) or "").startswith("visit_") or (call_name(c) or "").startswith("_visit")]
+                enclosed = [c for c in visits if g.dominates(g.node(sv), g.node(c)) and
+                            g.path_exists_avoiding(g.node(c), g.node(r), []) and c.lineno > sv.lineno and c.lineno < r.lineno]
+                if enclosed and not between_sets:
+                    problems.append("the pair `%s = self._exp_type` (line %d) ... `self._exp_type = %s` (line %d) encloses the "
+                                    "visit `%s` but no `self._exp_type = ...` in between: the sub-expression inherits the expected "
+                                    "type of the enclosing expression" % (nm, sv.lineno, nm, r.lineno, src(enclosed[0])[:40]))
+                if not g.postdominates(g.node(r), g.node(sv)) and len(restores) == 1:
+                    problems.append("restore at line %d is not reached on every path from the save" % r.lineno)
+            obs.append(Ob("C03-R8", "%s:%s@%d" % (name, nm, sv.lineno - fn.lineno), _w(m, sv), not problems, "; ".join(problems)))
+        # every plain set is protected by a save that dominates it
+        for st in stores:
+            if any(src(st.value) == x.targets[0].id for x in saves):
+                continue
+            ok = any(g.dominates(g.node(sv), g.node(st)) for sv in saves)
+            obs.append(Ob("C03-R8", "%s:set@%d:protected-by-a-save" % (name, st.lineno - fn.lineno), _w(m, st), ok,
+                          "`%s` changes the expected-type context without saving the previous value first" % src(st)[:60]))
+    if n_pairs < 6:
+        raise AnalysisError("only %d save/restore pairs of _exp_type found" % n_pairs, rule="C03-R8", anchor=cls.qualname)
+    return obs
+
+
 def rules():
     return [
         RuleSpec("C03-R1", "write set of the erasure mutation's call-graph closure", 8, r1_write_set),
@@ -420,7 +468,8 @@ def rules():
         RuleSpec("C03-R4", "bookkeeping field is not read by translators / equality", 1, r4_bookkeeping_unread),
         RuleSpec("C03-R5", "visitors return their node (identity rewrite)", 5, r5_identity_visitors),
         RuleSpec("C03-R6", "what is omittable", 7, r6_omittable),
-        RuleSpec("C03-R7", "shape of the feasibility test (verification passes)", 7, r7_feasibility_shape),
+        RuleSpec("C03-R7", "shape of the feasibility test (verification passes)", 4, r7_feasibility_shape),
+        RuleSpec("C03-R8", "expected-type context of the analysis: save / set / restore around sub-visits", 12, r8_expected_type_context),
     ]
 
 
@@ -512,6 +561,14 @@ def _v_keep_declared(tree):
     iff.test = V.parse_expr("True")
 
 
+def _v_receiver_inherits_expected(tree):
+    f = V.find_def(tree, "TypeDependencyAnalysis.visit_func_call")
+    sts = [n for n in ast.walk(f) if isinstance(n, ast.Assign) and ast.unparse(n) == "self._exp_type = None"]
+    if not sts:
+        raise V.SkipVariant("no set")
+    V.remove_stmt(tree, sts[0])
+
+
 def _t_rename(tree):
     f = _vf(tree)
     V.rename_local(f, "c_type_graph", "graph_copy")
@@ -535,6 +592,7 @@ def variants():
         V.Variant("feasibility: unreachable type argument tolerated for top-level nodes", "src/analysis/type_dependency_analysis.py", _v_feasible_skips_typeargs, {"C03-R7"}),
         V.Variant("feasibility: a reachable subtype counts as the same type", "src/analysis/type_dependency_analysis.py", _v_feasible_subtype_ok, {"C03-R7"}),
         V.Variant("omitting a declaration keeps its declared edges", "src/analysis/type_dependency_analysis.py", _v_keep_declared, {"C03-R7"}),
+        V.Variant("receiver of a call inherits the expected type", "src/analysis/type_dependency_analysis.py", _v_receiver_inherits_expected, {"C03-R8"}),
         V.Variant("twin: rename locals in visit_func_decl", te, _t_rename, None, twin=True),
         V.Variant("twin: whole tree reformatted by ast.unparse", None, None, None, twin=True),
     ]
